@@ -81,7 +81,7 @@ def choose_action(rng, w, focus, budget):
         if op == "set":
             return {"op": "set", "g": g, "k": rng.choice(KEYS), "o": rng.randrange(len(O)) + 1}
         if op in ("del", "pop", "get"):
-            return {"op": op, "g": g, "k": rng.choice(KEYS)}
+            return {"op": "popd" if op == "pop" and rng.random() < 0.4 else op, "g": g, "k": rng.choice(KEYS)}
         if op == "clear":
             return {"op": "clear", "g": g}
         if op == "update":
@@ -158,7 +158,7 @@ def choose_action(rng, w, focus, budget):
         if op == "dsupdatebad":
             return {"op": "dsupdatebad", "d": d, "k": rng.choice(KEYS), "o": rng.randrange(len(O)) + 1}
         if op in ("dsdel", "dspop", "dsget"):
-            return {"op": op, "d": d, "k": rng.choice(KEYS)}
+            return {"op": "dspopd" if op == "dspop" and rng.random() < 0.4 else op, "d": d, "k": rng.choice(KEYS)}
         if op == "dsmeta":
             return {"op": "dsmeta", "d": d, "mk": rng.choice(["t", "n"])}
         if op == "dsclear":
